@@ -113,6 +113,13 @@ def run_shard(params):
         if (st["legal_calls"] and st["illegal_calls"]) or st["programs_with_fault_fired"]:
             res["nontrivial"].append(f"{','.join(seq)}|{label}")
         for mech, what, detail in V:
+            if kind == "fatal_plus_retriable" and mech.startswith("illegal_call_has_effect_on_the_wire"):
+                # with random retriable faults on every request the retry of an EARLIER legal call (AddPartitionsToTxn whose
+                # reply was lost or delayed) may reach the cluster after a later illegal call raised: not that call's effect.
+                # Wire silence after illegal calls is judged in the programs with at most one scripted fault.
+                cnt["wire_silence_not_judged_under_random_retriable_faults"] = \
+                    cnt.get("wire_silence_not_judged_under_random_retriable_faults", 0) + 1
+                continue
             cnt[f"violating_programs_{mech}"] = cnt.get(f"violating_programs_{mech}", 0) + 1
             if mech in seen:
                 continue
